@@ -92,6 +92,7 @@ func (e *Exec) step(fr *frame, st *State, in ssa.Instruction, b *ssa.BasicBlock)
 				arr := e.heapComp(st, name, SInt, arraySort(SInt, as))
 				sel := fmt.Sprintf("(select (select %s cx!a) cx!i)", arr.S)
 				e.assume(st, Term{fmt.Sprintf("(forall ((cx!a Int) (cx!i Int)) (! (<= %s %s) :pattern (%s)))", sel, st.alloc.S, sel), SBool})
+				e.trusted("closed heap: the references held in a slice of *T were allocated before a T allocated later (the fact assumed of every reference the code loads, stated for all elements at struct allocations)")
 			}
 		}
 		ref := e.allocRef(st, x.Comment)
